@@ -109,8 +109,9 @@ func verifC01_Entry() {
 	p.MatchAllHeader = verifBool("entry.matchAllHeader")
 	hasRewrite := verifBool("entry.hasRewrite")
 	if hasRewrite {
-		// entries with a rewrite target carry exactly one of path / pathPrefix
-		verifAssume((p.Path != "") != (p.PathPrefix != ""))
+		// an entry with a rewrite target has a path condition (Validate); it may combine an
+		// exact path with a prefix: the rewrite then follows the condition that matched
+		verifAssume(p.Path != "" || p.PathPrefix != "")
 		p.RewriteTarget = verifString("entry.rewriteTarget", 2)
 		verifAssume(p.RewriteTarget != "")
 	}
@@ -152,12 +153,15 @@ func verifC01_Entry() {
 	verifAssert(req.Path() == path && req.Method() == method, "match-does-not-modify-request")
 	if wantPath && hasRewrite {
 		mp.rewrite(req)
-		if p.Path != "" {
+		if p.Path != "" && path == p.Path {
 			verifAssert(req.Path() == p.RewriteTarget, "rewrite-exact-path")
 			verifCover("rewrite-exact")
 		} else {
 			verifAssert(req.Path() == p.RewriteTarget+path[len(p.PathPrefix):], "rewrite-prefix-keeps-remainder")
 			verifCover("rewrite-prefix")
+			if p.Path != "" {
+				verifCover("rewrite-by-prefix-on-an-entry-that-also-has-an-exact-path")
+			}
 		}
 	} else if wantPath {
 		mp.rewrite(req)
